@@ -27,7 +27,13 @@ struct other_error : virtual policy::error_handler {
     static void error(const error_type&) { b_handler_calls++; }
 };
 
-#if KIND == 4
+#if KIND == 5
+// hash facets: their statics (multiplier, shift, length, control table) must be per policy too
+struct A : policy::basic_policy<A, sym_rtti, policy::fast_perfect_hash<A>, policy::vptr_vector<A>, policy::backward_compatible_error_handler<A>> {};
+struct B : A::rebind<B> {};
+struct A2 : policy::basic_policy<A2, sym_rtti, policy::checked_perfect_hash<A2>, policy::vptr_vector<A2>, policy::backward_compatible_error_handler<A2>> {};
+struct B2 : A2::rebind<B2> {};
+#elif KIND == 4
 // facets with NON-DEFAULT extra template arguments: they must be re-bound too
 #include <map>
 using custom_map = std::map<type_id, const std::uintptr_t*>;
@@ -37,7 +43,7 @@ struct B : A::rebind<B> {};
 #else
 struct A : policy::basic_policy<A, sym_rtti, policy::vptr_vector<A>, policy::basic_indirect_vptr<A>, policy::backward_compatible_error_handler<A>> {};
 #endif
-#if KIND == 4
+#if KIND == 4 || KIND == 5
 #elif KIND == 1
 struct B : A::rebind<B> {};
 #elif KIND == 2
@@ -74,6 +80,22 @@ static void reg(detail::class_catalog& cat, class_info* c, std::uintptr_t** sv, 
     }
 }
 
+#if KIND == 5
+extern "C" void cbmc_main() {
+    ll2c_run_global_ctors();
+    verif_assert((void*)&A::hash_mult != (void*)&B::hash_mult && (void*)&A::hash_shift != (void*)&B::hash_shift && (void*)&A::hash_length != (void*)&B::hash_length
+                 && (void*)&A::hash_min != (void*)&B::hash_min && (void*)&A::hash_max != (void*)&B::hash_max, 20);
+    verif_assert((void*)&A2::hash_mult != (void*)&B2::hash_mult && (void*)&A2::control != (void*)&B2::control && (void*)&A2::hash_length != (void*)&B2::hash_length, 21);
+    verif_assert((void*)&A::vptrs != (void*)&B::vptrs && (void*)&A2::vptrs != (void*)&B2::vptrs, 22);
+    // and behaviourally: writing B's parameters (what update<B> does) leaves A's alone
+    type_id am = nondet_u64(); std::size_t as = verif_range(0, 63), al = verif_range(0, 64);
+    A::hash_mult = am; A::hash_shift = as; A::hash_length = al;
+    B::hash_mult = nondet_u64(); B::hash_shift = verif_range(0, 63); B::hash_length = verif_range(0, 64);
+    verif_assert(A::hash_mult == am && A::hash_shift == as && A::hash_length == al, 23);
+    verif_out(1);
+    VERIF_COVER(999);
+}
+#else
 extern "C" void cbmc_main() {
     ll2c_run_global_ctors();
     // distinct objects behind corresponding statics of A and B
@@ -163,3 +185,4 @@ extern "C" void cbmc_main() {
     for (int k = 0; k < 3; k++) db[k].method = nullptr;
     VERIF_COVER(999);
 }
+#endif
